@@ -1,9 +1,11 @@
 /-
 M9 — sheets and the three offline workbook formats (C14).
 
-A sheet is a name, a header list and a grid of strings.  The byte formats (csv / openpyxl /
-json) are library code and are NOT modelled: the model starts where the libraries hand a grid
-to Python and follows, line by line,
+A sheet is a name, a header list and a grid of strings.  The XLSX and JSON byte formats
+(openpyxl / json) are library code and are NOT modelled: for them the model starts where the
+libraries hand a grid to Python.  The CSV byte format IS modelled (`Rpft/Csv.lean`: `csv.writer`,
+text-mode line iteration, the `csv.reader` automaton, UTF-8) and composed here with tablib's record
+loop (`exportCsv` / `loadCsv` at the end of this file).  The model follows, line by line,
 
 * tablib `Dataset` bookkeeping that the readers go through (`width`, `_validate(row)`,
   `append`, the `headers` setter, `dict` getter `_package` and `dict` setter `_set_dict`),
@@ -15,6 +17,7 @@ to Python and follows, line by line,
 into `None`, so the two cannot be told apart on a `Dataset`).  Core Lean only.
 -/
 import Rpft.Str
+import Rpft.Csv
 namespace Rpft.Sheets
 open Rpft
 
@@ -218,5 +221,36 @@ def readCsv (name : Str) (records : List (List Str)) : Except SErr Sheet :=
 
 /-- the records of a sheet as the harness writes them with Python's `csv.writer` -/
 def toCsvRecords (s : Sheet) : List (List Str) := s.headers :: s.rows
+
+/-! ### CSV files: bytes ↔ sheet -/
+
+/-- `Dataset._package(dicts=False)`: the header record is there only when the Dataset has headers -/
+def packageRecords (s : Sheet) : List (List Str) :=
+  if s.headers.isEmpty then s.rows else s.headers :: s.rows
+
+/-- `sheet.table.export("csv")` (the text `sheets_to_csv` writes with `newline=""`, UTF-8) -/
+def exportCsv (s : Sheet) : Str := Csv.writeCsv (packageRecords s)
+
+def exportCsvBytes (s : Sheet) : ByteArray := Csv.encodeUtf8 (exportCsv s)
+
+inductive LoadErr
+  | csv (e : Csv.CsvErr)        -- `_csv.Error` / `UnicodeDecodeError` out of the reader
+  | sheet (e : SErr)            -- tablib refused a record
+deriving DecidableEq, Repr
+
+/-- `tablib.import_set(file, format="csv")` on the decoded text of the file -/
+def loadCsvText (name : Str) (text : Str) : Except LoadErr Sheet :=
+  match Csv.parseCsv text with
+  | .error e => .error (.csv e)
+  | .ok records =>
+    match readCsv name records with
+    | .ok s => .ok s
+    | .error e => .error (.sheet e)
+
+/-- `load_csv(path)`: `open(path, "r", encoding="utf-8", newline="")` + `tablib.import_set` -/
+def loadCsv (name : Str) (bytes : ByteArray) : Except LoadErr Sheet :=
+  match Csv.decodeUtf8 bytes with
+  | none => .error (.csv .decode)
+  | some text => loadCsvText name text
 
 end Rpft.Sheets
